@@ -141,6 +141,26 @@ def corpus(rng, tier):
     for text, node, lay in srcs:
         for kind, new in corrupt.corruptions(text, rng, 6 if quick else 12):
             out.append((new, "corrupt:" + kind, None))
+    # exhaustive single edits of a few patterns: every token deleted, duplicated, and every foreign token inserted
+    # before every token (a token the grammar has no place for must be rejected wherever it lands)
+    small = [v for v in valid if 8 <= len(v[0]) <= 90]
+    for text, node, lay in rng.sample(small, min(len(small), 8 if quick else 120)):
+        try:
+            tree = corrupt.lex(text)
+        except ValueError:
+            continue
+        for path, i in corrupt.positions(tree):
+            t = corrupt._copy(tree)
+            del corrupt._at(t, path)[i]
+            out.append((corrupt.render(t), "edit:delete", None))
+            t = corrupt._copy(tree)
+            lst = corrupt._at(t, path)
+            lst.insert(i, lst[i])
+            out.append((corrupt.render(t), "edit:duplicate", None))
+            for ft in corrupt.FOREIGN + ["1.5", "'x'", "true", "b\"s\"", "r\"x\""]:
+                t = corrupt._copy(tree)
+                corrupt._at(t, path).insert(i, ft)
+                out.append((corrupt.render(t), "edit:insert", None))
     trunc = rng.sample(valid, min(len(valid), 25 if quick else 400))
     for text, node, lay in trunc:
         try:
